@@ -102,8 +102,12 @@ func inModule(pkg *types.Package) bool {
 func reprOf(t types.Type) reprKind {
 	switch u := t.(type) {
 	case *types.Named:
-		if _, ok := u.Underlying().(*types.Struct); ok {
+		if st, ok := u.Underlying().(*types.Struct); ok {
 			if u.Obj() != nil && inModule(u.Obj().Pkg()) {
+				// `type T lib.S`: the fields belong to a library package, the value stays opaque
+				if st.NumFields() > 0 && st.Field(0).Pkg() != nil && !inModule(st.Field(0).Pkg()) {
+					return rOpaque
+				}
 				return rStruct
 			}
 			return rOpaque
@@ -319,6 +323,9 @@ func leavesOf(t types.Type, prefix string, out *[]leaf) {
 func buildValue(t types.Type, prefix string, get func(path string, s *Sort, typ types.Type) *Term) Value {
 	switch reprOf(t) {
 	case rInt, rBool, rString, rRef, rOpaque:
+		if et, ok := interiorElem(t); ok {
+			return ptrFromTerm(get(prefix, SInt, t), et, t)
+		}
 		return Scalar{get(prefix, sortOfScalar(t), t), t}
 	case rStruct:
 		sv := StructVal{Fields: map[string]Value{}, Typ: t}
@@ -360,6 +367,10 @@ func flattenValue(v Value, prefix string, put func(path string, t *Term)) {
 		// only plain heap pointers can be flattened
 		if hl, ok := x.Loc.(*HeapLoc); ok && hl.Path == "" {
 			put(prefix, hl.Ref)
+			return
+		}
+		if ml, ok := x.Loc.(*MemLoc); ok && !ml.Whole && ml.Path == "" {
+			put(prefix, ptrTerm(ml))
 			return
 		}
 		panic(unsupported("storing an interior pointer into heap/memory"))
@@ -439,7 +450,55 @@ func asTerm(v Value) *Term {
 		if hl, ok := x.Loc.(*HeapLoc); ok && hl.Path == "" {
 			return hl.Ref
 		}
+		if ml, ok := x.Loc.(*MemLoc); ok && !ml.Whole && ml.Path == "" {
+			return ptrTerm(ml)
+		}
 		panic(unsupported("interior pointer used as a scalar"))
 	}
 	panic(unsupported(fmt.Sprintf("value %T used as scalar", v)))
+}
+
+// ---------------------------------------------------------------------------------------------
+// Interior pointer types ("interior pkg.T" in a contract file): every *T points at an element of a
+// []T backing array (the only way such pointers are made in this code base: &s[i]). A *T is then the
+// pair (array id, absolute index), encoded as one integer ptr!mk(arr, idx) when it is stored in a
+// heap or memory cell; nil is the pointer whose array id is 0.
+// ---------------------------------------------------------------------------------------------
+
+var interiorTypes = map[string]bool{}
+
+func interiorElem(t types.Type) (types.Type, bool) {
+	if t == nil || len(interiorTypes) == 0 {
+		return nil, false
+	}
+	pt, ok := t.Underlying().(*types.Pointer)
+	if !ok {
+		return nil, false
+	}
+	if interiorTypes[typeKey(pt.Elem())] {
+		return pt.Elem(), true
+	}
+	return nil, false
+}
+
+func ptrFromTerm(p *Term, elem, ptrT types.Type) PtrVal {
+	var arr, idx *Term
+	if p.Op == "app" && p.Name == "ptr!mk" {
+		arr, idx = p.Args[0], p.Args[1]
+	} else if p.isInt() && p.Val.Sign() == 0 {
+		arr, idx = tZero, tZero
+	} else {
+		arr, idx = mkApp("ptr!arr", SInt, p), mkApp("ptr!idx", SInt, p)
+	}
+	return PtrVal{Loc: &MemLoc{Fam: memFamily(elem), Arr: arr, Idx: idx, Typ: elem}, Typ: ptrT}
+}
+
+func ptrTerm(ml *MemLoc) *Term {
+	if ml.Arr.Op == "app" && ml.Arr.Name == "ptr!arr" && ml.Idx.Op == "app" && ml.Idx.Name == "ptr!idx" && ml.Arr.Args[0] == ml.Idx.Args[0] {
+		return ml.Arr.Args[0]
+	}
+	if ml.Arr.isInt() && ml.Arr.Val.Sign() == 0 {
+		return tZero
+	}
+	return mkApp("ptr!mk", SInt, ml.Arr, ml.Idx)
 }
